@@ -251,4 +251,11 @@ def strategy(tier):
     return st.fixed_dictionaries({"shots": shots, "strict_names": st.booleans(), "strict_lengths": st.booleans()})
 
 
-SUBS = [Sub("shots", check, fuzz_runs=10000, strategy=strategy, nontrivial=nontrivial, classes=classes, n_quick=2500, n_thorough=25000)]
+def sparse_strategy(tier):
+    """Many short shots over two registers: registers missing from the first shot, appearing later, with
+    other lengths, in any combination of the strict flags."""
+    sparse = st.lists(st.lists(st.tuples(st.sampled_from(["a", "b", "a[2]", "b[0]", "a[0]"]), good_value).map(list), max_size=3), min_size=3, max_size=6)
+    return st.fixed_dictionaries({"shots": sparse, "strict_names": st.booleans(), "strict_lengths": st.booleans()})
+
+
+SUBS = [Sub("sparse-shots", check, strategy=sparse_strategy, nontrivial=nontrivial, classes=classes, n_quick=1200, n_thorough=10000), Sub("shots", check, fuzz_runs=10000, strategy=strategy, nontrivial=nontrivial, classes=classes, n_quick=2500, n_thorough=25000)]
